@@ -18,3 +18,7 @@ ASSUMPTIONS = ["astropy conversion factors are exact reals: Quantity.to_value(U)
                "pytensor introspection of a Normal prior returns its mean and standard deviation"]
 NOT_DECIDED = ["the Jacobian constant n_epochs * ln(unit ratio) of the likelihood value itself follows from C01's formula by a scaling argument that "
                "is exercised by the twin (bounded), not proved"]
+
+# the plumbing this property's claim runs through (contracts/chain.py): listed here too, so that a change inside it is caught by THIS check
+from . import chain as CH   # noqa: E402
+CH.extend(CONTRACTS, CH.plumbing() + CH.tables())
